@@ -80,4 +80,9 @@ class LxmlEventHandler(XmlHandler):
             else:
                 raise XmlHandlerError(f"Unhandled event: `{event}`.")
 
+        if self.queue:
+            # The recovering parser gave up before the root element ended,
+            # the last object is a child, not the requested document.
+            return None
+
         return self.objects[-1][1] if self.objects else None
